@@ -35,7 +35,7 @@ def judge_and_report(ctx, prop, cs, obs, module="CertJudge", per_shard=60, keep_
             what = cl if isinstance(cl, str) else json.dumps(cl, sort_keys=True)
             kinds.setdefault(what, []).append(o["id"])
             c = by_id[o["id"]]
-            d = describe(c) if describe else _short(c["files"][-1]["text"])
+            d = describe(c) if describe else _short(([f.get("text", "") for f in c["files"] if f.get("text")] or [""])[-1])
             ctx.violation("%s: %s  [config: %s]" % (prop, what, d),
                           {"kind": "gen", "case": c, "what": what, "result": o["result"], "err": o["err"][:300],
                            "class": (c.get("tag") or {}).get("class", "")})
@@ -49,7 +49,7 @@ def evidence(ctx, obs, stats, cs, kinds, rule, extra=None):
         "evaluations": len(obs),
         "distinct_nontrivial": len({json.dumps(c["files"], sort_keys=True) for c in cs}),
         "rule": rule,
-        "samples": [{"config": c["files"][-1]["text"][:500], "tag": {k: v for k, v in (c.get("tag") or {}).items() if k not in ("cexts", "pexts")}} for c in cs[:: max(1, len(cs) // 3)][:3]],
+        "samples": [{"config": ([f.get("text", "") for f in c["files"] if f.get("text")] or [""])[-1][:500], "tag": {k: v for k, v in (c.get("tag") or {}).items() if k not in ("cexts", "pexts")}} for c in cs[:: max(1, len(cs) // 3)][:3]],
         "certificates_decoded": ncert, "runs_ok": len(good), "runs_not_ok": len(obs) - len(good),
         "complaint_kinds": {k: len(v) for k, v in kinds.items()},
     }
